@@ -1,22 +1,13 @@
 (* Reactive/DisposeFacts.v -- C04 / C11, part D: what a disposal leaves behind (fx = true). *)
 From stdpp Require Import gmap list.
 From Coq Require Import ZArith Lia.
-From Syc Require Import Reactive.Syntax Reactive.Interp Reactive.Show Reactive.Frame Reactive.NoPanic Reactive.WF.
+From Syc Require Import Reactive.Syntax Reactive.Interp Reactive.Show Reactive.Frame Reactive.NoPanic Reactive.WF Reactive.Own.
 
 (* ---------------------------------------------------------------------------------- *)
 (* D1: the disposed node is gone (any state, no invariant needed) *)
 
 Theorem dispose_not_alive : forall f id s s', dispose true f id s = Ok tt s' -> nodes s' !! id = None.
-Proof.
-  intros f id s s' H. destruct f as [|f]; [discriminate|]. rewrite dispose_S in H.
-  destruct (dispose_children true f id (unsubscribe true id s)) as [[] s1|e s1]; cbn [bind_res] in H; [|discriminate].
-  destruct (nodes s1 !! id) as [this|] eqn:Hid.
-  - inversion H; subst; clear H. apply alive_false.
-    rewrite (alive_foldr_upd id (fun _ => nd_dependents (remove_id id))).
-    rewrite (alive_foldr_upd id (fun _ => nd_deps (remove_id id))).
-    apply alive_false. cbn. apply lookup_delete.
-  - inversion H; subst. exact Hid.
-Qed.
+Proof. exact dispose_dead. Qed.
 
 (* D2: no live node lists the disposed node as a dependency or as a subscriber *)
 Theorem dispose_no_edges : forall f id s s', WF s -> dispose true f id s = Ok tt s' ->
@@ -95,11 +86,14 @@ Proof.
     destruct (dispose_list true f cs s0) as [[] s4|e s4] eqn:Hd end; cbn [bind_res] in H; [|discriminate].
   destruct (lext_all f) as (_&_&_&_&_&_&_&Hdl&_). specialize (Hdl (n_children nd) (set_tracker (tracker (upd id (fun n => nd_children [] (nd_cleanups [] n)) s)) s2)).
   rewrite Hd in Hdl. destruct Hdl as [l2 Hl2]. cbn in Hl2.
-  assert (Hlog : log s' = log s4).
-  { destruct (alive id s4); inversion H; subst; reflexivity. }
-  exists (l2 ++ l1). split.
-  - rewrite Hlog, Hl2, Hl1, app_assoc. reflexivity.
-  - apply sublist_inserts_l. exact Hs1.
+  assert (Hlog : exists l3, log s' = l3 ++ log s4).
+  { destruct (nodes s4 !! id) as [nd'|]; [|inversion H; subst; exists []; reflexivity].
+    match type of H with context [if ?b then _ else _] => destruct b end.
+    - destruct (lext_all f) as (_&_&_&_&_&Hdc&_). specialize (Hdc id s4). rewrite H in Hdc. exact Hdc.
+    - inversion H; subst. exists []. reflexivity. }
+  destruct Hlog as [l3 Hl3]. exists (l3 ++ l2 ++ l1). split.
+  - rewrite Hl3, Hl2, Hl1, !app_assoc. reflexivity.
+  - apply sublist_inserts_l, sublist_inserts_l. exact Hs1.
 Qed.
 
 (* the unsubscription that precedes the cleanups keeps the node and its cleanup list (no invariant needed) *)
@@ -127,17 +121,6 @@ Proof.
   destruct (nodes s1 !! id) as [this|]; inversion H; subst; [|reflexivity].
   cbn. rewrite !log_foldr_upd. reflexivity.
 Qed.
-
-(* ... and the node's own list is emptied before the first callback runs, so that a cleanup which disposes the
-   scope again (directly or by disposing an ancestor) does not run them a second time *)
-Lemma dispose_children_takes_list : forall f id s nd,
-  nodes s !! id = Some nd ->
-  dispose_children true (S f) id s =
-  bind_res (run_cleanups true f (n_cleanups nd)
-              (set_tracker None (upd id (fun n => nd_children [] (nd_cleanups [] n)) s)))
-    (fun _ s2 => bind_res (dispose_list true f (n_children nd) (set_tracker (tracker s) s2))
-    (fun _ s4 => if alive id s4 then Ok tt (upd id (nd_context []) s4) else Ok tt s4)).
-Proof. intros f id s nd Hn. rewrite dispose_children_S, Hn. reflexivity. Qed.
 
 (* ---------------------------------------------------------------------------------- *)
 (* the fix of F17: a disposal starts by unsubscribing the node, so that while its cleanups run and its children
@@ -214,6 +197,19 @@ Lemma propagate_unfold f starts s :
   bind_res (fold_left (sort_step true (S (size (nodes s)))) starts (Ok [] s)) (fun buf s1 => loop true f (rev buf) s1).
 Proof. rewrite propagate_S. reflexivity. Qed.
 
+(* both invariants hold after every successful program, so: no stale edge, no orphan, every live node owned by node 0
+   through live owners, every registered cleanup emitted exactly once or still pending on a live node *)
+Theorem program_final_state : forall f prog en s,
+  exec true f root_env prog init_state = Ok en s ->
+  WF s /\ OWN none s /\ (forall n, is_Some (nodes s !! n) -> rooted s n) /\
+  (forall l, (cntE l (log s) + pend l s = cntR l (log s))%nat).
+Proof.
+  intros f prog en s H. split; [eapply WF_exec; [apply WF_init|exact H]|].
+  destruct (OWN_exec _ _ _ _ _ _ _ OWN_init env_ok_root H) as [W _].
+  split; [exact W|]. split; [apply all_rooted, W|]. eapply program_cleanups_exact; exact H.
+Qed.
+
+Print Assumptions program_final_state.
 Print Assumptions dispose_not_alive.
 Print Assumptions dispose_no_edges.
 Print Assumptions dispose_frame.
@@ -244,23 +240,22 @@ Example df_each_once :
   end.
 Proof. vm_compute. repeat split; reflexivity. Qed.
 
-(* "exactly once" fails in one corner: a cleanup registered on a scope WHILE that scope is being disposed (it is
-   still in the table then) is stored in the node and dropped with it: it never runs *)
+(* a cleanup registered on a scope WHILE that scope is being disposed: the pinned code stores it in the node and
+   drops it with the node (never runs); the repaired dispose_children goes round again and runs it *)
 Definition df_lost : list stmt :=
   [SScope 2 [SCurScope 4; SOnCleanup 1 [SRunIn 4 [SOnCleanup 2 [SLog (Lit 7)]]]];
    SDispose 2].
-Example df_lost_cleanup :
-  match exec true 400 root_env df_lost init_state with
-  | Ok _ s => In (EvReg 2) (log s) /\ count_cleanup 2 (log s) = 0%nat /\ size (nodes s) = 1%nat
-  | Err _ _ => False
+Example df_lost_cleanup_pinned_vs_fixed :
+  match exec false 400 root_env df_lost init_state, exec true 400 root_env df_lost init_state with
+  | Ok _ s0, Ok _ s => count_cleanup 2 (log s0) = 0%nat /\ count_cleanup 2 (log s) = 1%nat /\ size (nodes s) = 1%nat
+  | _, _ => False
   end.
-Proof. vm_compute. repeat split; try reflexivity. tauto. Qed.
+Proof. vm_compute. repeat split; reflexivity. Qed.
 
-(* and "leak-free" fails in the same corner: a node created there survives its owner and is not reachable from
-   the root any more (live nodes 3, reachable 2) *)
-Example df_leak :
-  match exec true 400 root_env (firstn 3 site14_prog) init_state with
-  | Ok _ s => size (nodes s) = 3%nat /\ reachable s = 2%nat
-  | Err _ _ => False
+(* a node created there: the pinned code leaks it (live nodes 3, reachable 2), the repaired code disposes it *)
+Example df_leak_pinned_vs_fixed :
+  match exec false 400 root_env (firstn 3 site14_prog) init_state, exec true 400 root_env (firstn 3 site14_prog) init_state with
+  | Ok _ s0, Ok _ s => size (nodes s0) = 3%nat /\ reachable s0 = 2%nat /\ size (nodes s) = 2%nat /\ reachable s = 2%nat
+  | _, _ => False
   end.
-Proof. vm_compute. split; reflexivity. Qed.
+Proof. vm_compute. repeat split; reflexivity. Qed.
